@@ -233,6 +233,38 @@ std::string cmp_ab(regs_t& r, int a, int b, int& mask)
     }
 }
 
+template<class T>
+constexpr int texp()
+{
+    if constexpr (requires { cnl::_impl::tag_of_t<T>::exponent; }) {
+        return cnl::_impl::tag_of_t<T>::exponent;
+    } else {
+        return 0;
+    }
+}
+
+// ++d, d++, --d, d--
+template<int D>
+std::string incdec(regs_t& r, std::string const& op)
+{
+    auto& d = reg<D>(r);
+    using TD = std::remove_reference_t<decltype(d)>;
+    if constexpr (texp<TD>() > 0) {
+        return "n/a";      // the library has no ++/-- for a scale coarser than one (power_value of a negative exponent)
+    } else
+    return guarded([&] {
+        if (op == "preinc") {
+            ++d;
+        } else if (op == "postinc") {
+            d++;
+        } else if (op == "predec") {
+            --d;
+        } else {
+            d--;
+        }
+    });
+}
+
 // construction from a built-in integer (values on both sides of every register type's range)
 inline long long int_table(int vi)
 {
@@ -355,6 +387,16 @@ int main(int argc, char** argv)
                 std::string before = raw_of(r, rr);
                 std::string o2 = rr == 1 ? from_double<1>(r, v) : rr == 2 ? from_double<2>(r, v) : rr == 3 ? from_double<3>(r, v) : from_double<4>(r, v);
                 out.put(ev("StFromFlt").num("i", id).num("prog", prog).num("k", k).num("d", rr).raw("x", enc_float(v)).raw("before", before).raw("after", raw_of(r, rr))
+                                .raw("all", "[" + raw_of(r, 1) + "," + raw_of(r, 2) + "," + raw_of(r, 3) + "," + raw_of(r, 4) + "]").str("out", o2).s);
+            } else if (field_s(o, "k") == "incdec") {
+                std::string op = field_s(o, "op");
+                int d = field_i(o, "d");
+                std::string before = raw_of(r, d);
+                std::string o2 = d == 1 ? incdec<1>(r, op) : d == 2 ? incdec<2>(r, op) : d == 3 ? incdec<3>(r, op) : incdec<4>(r, op);
+                if (o2 == "n/a") {
+                    continue;
+                }
+                out.put(ev("StIncDec").num("i", id).num("prog", prog).num("k", k).str("op", op).num("d", d).raw("before", before).raw("after", raw_of(r, d))
                                 .raw("all", "[" + raw_of(r, 1) + "," + raw_of(r, 2) + "," + raw_of(r, 3) + "," + raw_of(r, 4) + "]").str("out", o2).s);
             } else if (field_s(o, "k") == "neg") {
                 int a = field_i(o, "a"), d = field_i(o, "d");
